@@ -90,7 +90,10 @@ pub fn make_payload(seed: u64, size: usize) -> Payload {
     let nlen = (splitmix(&mut s) % 12) as usize;
     let name: String = (0..nlen).map(|_| char::from(b'a' + (splitmix(&mut s) % 26) as u8)).collect();
     let nested = (0..(splitmix(&mut s) % 4)).map(|i| (0..i * 3).map(|j| (j * 7 + i) as u16).collect()).collect();
-    let pairs = (0..(splitmix(&mut s) % 5)).map(|i| (format!("k{}", i), splitmix(&mut s))).collect();
+    // now and then a LARGE nested collection (thousands of heap-allocated elements in one value: the serializer's
+    // scratch space is exercised beyond its first tier)
+    let npairs = if seed % 5 == 0 && size >= 1000 { 2049 + splitmix(&mut s) % 3000 } else { splitmix(&mut s) % 5 };
+    let pairs = (0..npairs).map(|i| (format!("k{}", i), splitmix(&mut s))).collect();
     Payload {
         id: splitmix(&mut s),
         name,
@@ -157,6 +160,7 @@ macro_rules! svcn {
 svcn!(SvcD, "shared", M1);
 svcn!(SvcE, "shared", M2);
 svcn!(SvcS, "store", M1, M2, M3, M4);
+svcn!(SvcG, "gen<M1>", M1);
 svcn!(SvcP0, "ping-0", M1);
 svcn!(SvcP1, "ping-1", M1);
 svcn!(SvcP2, "ping-2", M1);
@@ -221,11 +225,13 @@ fn code_num(c: &ErrorCode) -> u8 {
 pub struct RpcDomain {
     server: Option<Server>,
     addr: SocketAddr,
+    /// one long-lived client channel (connection) per case: `callp` reuses it, `call` opens a fresh one
+    chan: Option<Channel>,
 }
 
 impl RpcDomain {
     pub fn new(_params: &[&str]) -> Self {
-        Self { server: None, addr: "127.0.0.1:1".parse().unwrap() }
+        Self { server: None, addr: "127.0.0.1:1".parse().unwrap(), chan: None }
     }
 
     fn server(&mut self) -> &Server {
@@ -399,6 +405,8 @@ impl Domain for RpcDomain {
                     "a3" => rt!([u8; 3], [at(0), at(1), at(2)]),
                     "a5" => rt!([u8; 5], [at(0), at(1), at(2), at(3), at(4)]),
                     "a7" => rt!([u8; 7], [at(0), at(1), at(2), at(3), at(4), at(0), at(1)]),
+                    // one big nested collection as the whole message: n strings (the serializer's scratch space beyond its first tier)
+                    "vs" => rt!(Vec<String>, (0..(at(0) as usize * 256 + at(1) as usize)).map(|i| format!("key-{}", i)).collect()),
                     _ => "bad-op".to_string(),
                 }
             },
@@ -445,6 +453,7 @@ impl Domain for RpcDomain {
                     "D" => srv.add_service(SvcD { inst }),
                     "E" => srv.add_service(SvcE { inst }),
                     "S" => srv.add_service(SvcS { inst }),
+                    "G" => srv.add_service(SvcG { inst }),
                     "P0" => srv.add_service(SvcP0 { inst }),
                     "P1" => srv.add_service(SvcP1 { inst }),
                     "P2" => srv.add_service(SvcP2 { inst }),
@@ -465,6 +474,7 @@ impl Domain for RpcDomain {
                     "C" => srv.remove_service(SvcC::service_name()),
                     "D" | "E" => srv.remove_service("shared"),
                     "S" => srv.remove_service("store"),
+                    "G" => srv.remove_service(SvcG::service_name()),
                     "P0" => srv.remove_service("ping-0"),
                     "P1" => srv.remove_service("ping-1"),
                     "P2" => srv.remove_service("ping-2"),
@@ -477,9 +487,16 @@ impl Domain for RpcDomain {
                 }
                 "ok".to_string()
             },
-            "call" => {
+            "call" | "callp" => {
                 self.server();
-                let ch = Channel::connect(self.addr);
+                let ch = if t[0] == "callp" {
+                    if self.chan.is_none() {
+                        self.chan = Some(Channel::connect(self.addr));
+                    }
+                    self.chan.clone().unwrap()
+                } else {
+                    Channel::connect(self.addr)
+                };
                 let res = match (t[1], t[2]) {
                     ("A", "M1") => runtime().block_on(RpcClient::<SvcA>::new(ch).send(&M1 { tag: 1 })).map(|r| r.deserialize_view().unwrap_or(u64::MAX)),
                     ("B", "M1") => runtime().block_on(RpcClient::<SvcB>::new(ch).send(&M1 { tag: 1 })).map(|r| r.deserialize_view().unwrap_or(u64::MAX)),
@@ -487,6 +504,7 @@ impl Domain for RpcDomain {
                     ("C", "M2") => runtime().block_on(RpcClient::<SvcC>::new(ch).send(&M2 { tag: 2 })).map(|r| r.deserialize_view().unwrap_or(u64::MAX)),
                     ("D", "M1") => runtime().block_on(RpcClient::<SvcD>::new(ch).send(&M1 { tag: 1 })).map(|r| r.deserialize_view().unwrap_or(u64::MAX)),
                     ("E", "M2") => runtime().block_on(RpcClient::<SvcE>::new(ch).send(&M2 { tag: 2 })).map(|r| r.deserialize_view().unwrap_or(u64::MAX)),
+                    ("G", "M1") => runtime().block_on(RpcClient::<SvcG>::new(ch).send(&M1 { tag: 1 })).map(|r| r.deserialize_view().unwrap_or(u64::MAX)),
                     ("S", "M1") => runtime().block_on(RpcClient::<SvcS>::new(ch).send(&M1 { tag: 1 })).map(|r| r.deserialize_view().unwrap_or(u64::MAX)),
                     ("S", "M2") => runtime().block_on(RpcClient::<SvcS>::new(ch).send(&M2 { tag: 2 })).map(|r| r.deserialize_view().unwrap_or(u64::MAX)),
                     ("S", "M3") => runtime().block_on(RpcClient::<SvcS>::new(ch).send(&M3 { tag: 3 })).map(|r| r.deserialize_view().unwrap_or(u64::MAX)),
